@@ -128,6 +128,46 @@ DESC = {
     "C19-F": "(round 4) relative imports resolved against the package derived from the file path",
     "C20-E": "(round 4) SIGPIPE reset to its default action in the baseline tool",
     "C20-F": "(round 4) untracked files listed with `--directory`: a wholly untracked directory hides its files",
+    "C01-G": "(round 5) blacklisted imports reported on the line of the alias instead of the line where the import starts",
+    "C01-H": "(round 5, off-anchor) a def/class drops the import alias of the same name whatever its scope",
+    "C02-G": "(round 5) the reported line's comment is read only if the node's span has a comment too (B613's range is [0])",
+    "C02-H": "(round 5, off-anchor) `plugins_by_name` keyed by the function name: B324/B508/B509 cannot be named in nosec",
+    "C03-G": "(round 5) `results_count` counts `self.results` directly, bypassing the baseline filter: report empty, exit 1",
+    "C03-H": "(round 5, off-anchor) `ProfileNotFound` prints `basename(config_file)`: `-p X` without `-c` ends in a TypeError traceback",
+    "C04-G": "(round 5) skipped files popped by their index in the unshrunk list: second open() failure drops a healthy file or raises IndexError",
+    "C04-H": "(round 5, off-anchor) `Metrics.aggregate` no longer folds the seeded zero totals in: txt/screen report raises KeyError when no file was visited",
+    "C05-G": "(round 5) B001 expansion decided over include and exclude together",
+    "C05-H": "(round 5, off-anchor) B607 extends the shared `shell_injection` list in place: enabling B607 changes what B603 reports",
+    "C06-G": "(round 5) B103 formats `context.node.func.value.id`: raises for receivers that are not plain names",
+    "C06-H": "(round 5, off-anchor) `_get_nosecs_from_contexts` returns `base | context` without the None case: B613 next to `# nosec B105` raises",
+    "C07-G": "(round 5) baseline matching by a Counter key without the confidence",
+    "C07-H": "(round 5, off-anchor) `results_count` treats the baseline as a set: an extra occurrence of a baselined identity exits 0",
+    "C08-G": "(round 5) discovered files de-duplicated through a dict over a set: which spelling survives depends on the hash seed",
+    "C08-H": "(round 5, off-anchor) blacklist names looked up live in the registry that `get_url` rewrites",
+    "C09-G": "(round 5) CSV written with `lineterminator='\\n'`: a lone CR in a field is no longer quoted",
+    "C09-H": "(round 5, off-anchor) SARIF rules cached by test name: all blacklist findings share the first rule id",
+    "C10-G": "(round 5) decorated definitions report the first decorator's line while the range starts at `def`",
+    "C10-H": "(round 5, off-anchor) B613 counts lines with `str.splitlines()` (form feed, U+2028, ... are not file line ends)",
+    "C11-G": "(round 5) directory listings pre-filtered by bare file name: include patterns with a `/` never match",
+    "C11-H": "(round 5, off-anchor) config `exclude_dirs` entries lose their trailing slash: `tests/` also drops `contests.py`",
+    "C12-G": "(round 5) `aggregate` skips every key starting with `_`: files under `_vendor/` are missing from the totals",
+    "C12-H": "(round 5, off-anchor) `count_locs` fed from binary `readlines()`: lone-CR files count as one line",
+    "C13-G": "(round 5) profile validated before the CLI/INI selection is merged: contradictions split across carriers scan",
+    "C13-H": "(round 5, off-anchor) same shared-list mutation as C05-H: a `shell_injection` block equal to the defaults adds B603 findings",
+    "C14-G": "(round 5) B603 no longer located on the `shell=` keyword's line",
+    "C14-H": "(round 5, off-anchor) `_load_tests` keeps a check's previous `_config` when the file has no section: settings leak between scans",
+    "C15-G": "(round 5) key-size thresholds tested in config-dict order: medium listed before high grades weak keys MEDIUM",
+    "C15-H": "(round 5, off-anchor) `get_qual_attr` resolves only one-dot attributes: `a.b.TLSv1_METHOD` defaults lose B503",
+    "C16-G": "(round 5) the loop over assignment targets stops at the first target that is not a name",
+    "C16-H": "(round 5, off-anchor) same stale `_config` as C14-H seen through `tmp_dirs`",
+    "C17-G": "(round 5) f-string SQL recognised only when the first part is a constant",
+    "C17-H": "(round 5, off-anchor) `Context.filename` normalised: `*/test_*.py` skips no longer match `./test_x.py`",
+    "C18-G": "(round 5) documentation URLs built from the entry-point name: B324's page does not exist",
+    "C18-H": "(round 5, off-anchor) nosec token pattern without IGNORECASE: the two rule names with capitals yield no token",
+    "C19-G": "(round 5) stdin read through the text layer and re-encoded: legacy encodings die with UnicodeDecodeError",
+    "C19-H": "(round 5, off-anchor) bidi table built from ranges, one of them one short: U+2069 is not reported",
+    "C20-G": "(round 5) `global repo` dropped with the pre-initialisations: the cleanup never resets HEAD",
+    "C20-H": "(round 5, off-anchor) untracked files listed with `--directory`: files of a wholly untracked directory are overwritten",
 }
 
 
